@@ -134,7 +134,7 @@ def _run(ev, work, thorough):
             c = sub[i::16]
             if c:
                 jobs.append((len(jobs), c, shape, base))
-    results = pmap(job, jobs, job_timeout=900)
+    results = pmap(job, jobs, job_timeout=180)
     verd = Verdicts(PID, os.path.join(HOME, "replays"))
     for j, r in zip(jobs, results):
         if isinstance(r, Crashed):
